@@ -123,7 +123,11 @@ def update_worker(analysis: Analysis, ctxspec) -> dict:
 
         fw_stores = [e for e in s.events if e.kind == "setitem" and isinstance(e.recv, V) and store_name(e.recv.key()) == "firmware"]
         ranged = all(isinstance(e.args[1], TupleV) and len(e.args[1].items) == 2 and all(in_u16(e, x) for x in e.args[1].items) for _i, e in req) and all(isinstance(e.args[0], TupleV) and all(in_u16(e, x) for x in e.args[0].items) for e in fw_stores)
-        rows.append({"kind": kind, "ranged": ranged, "req": [i for i, _e in req], "req_vals_tuple2": all(isinstance(e.args[1], TupleV) and len(e.args[1].items) == 2 for _i, e in req), "req_key_known": all(any(f[0] == "in" and f[1] == e.args[0].key() and render(f[2]).endswith("sensors") for f in (e.facts or ())) for _i, e in req), "pops": pops, "reboots": [(i, isinstance(e.args[0], Const) and e.args[0].value is True) for i, e in reboots], "fw_known": fw_known, "node_known": node_known, "witness": describe_path(out, 22)})
+        bin_key = args[3].key()
+        bin_given = ("notnone", bin_key) in s.facts or ("truthy", bin_key) in s.facts
+        prepared = {f"opaque:{e.name}:{e.line}" for e in s.events if e.kind == "opaque" and e.name == "ota:prepare_fw" and e.args and isinstance(e.args[0], V) and e.args[0].key() == bin_key}
+        stored_image = any(len(e.args) > 1 and any(lbl in repr(e.args[1].key()) for lbl in prepared) for e in fw_stores)
+        rows.append({"bin_given": bin_given, "stored_image": stored_image, "fw_store_vals": [repr(e.args[1].key())[:80] for e in fw_stores if len(e.args) > 1], "kind": kind, "ranged": ranged, "req": [i for i, _e in req], "req_vals_tuple2": all(isinstance(e.args[1], TupleV) and len(e.args[1].items) == 2 for _i, e in req), "req_key_known": all(any(f[0] == "in" and f[1] == e.args[0].key() and render(f[2]).endswith("sensors") for f in (e.facts or ())) for _i, e in req), "pops": pops, "reboots": [(i, isinstance(e.args[0], Const) and e.args[0].value is True) for i, e in reboots], "fw_known": fw_known, "node_known": node_known, "witness": describe_path(out, 22)})
     return {"ctx": ctx.name, "rows": rows}
 
 
@@ -291,6 +295,9 @@ def run(analysis: Analysis, tier: str) -> RuleResult:
             if r["node_known"] and r["fw_known"]:
                 ok = bool(r["req"]) and any(t for _i, t in r["reboots"])
                 res.add("C10-R2", "ota:OTAFirmware.make_update / every update call for a known node with firmware (re)schedules it and sets the reboot flag", ok, "mysensors/ota.py", "requested[node] stored and reboot set" if ok else "an update call for a known node with existing firmware returns without scheduling the node / setting the reboot flag (e.g. skipped as 'already requested')", r["witness"] if not ok else None, context=summ["ctx"])
+            if r["req"] and r.get("bin_given"):
+                oks = r["stored_image"]
+                res.add("C10-R1", "ota:OTAFirmware.make_update / an update call that brings an image stores the record prepared from that image under (type, version)", oks, "mysensors/ota.py", "firmware[type, version] = prepare_fw(fw_bin)" if oks else f"a path schedules the node although the image passed in was not stored (stored: {r['fw_store_vals']}): the node is served an older image kept under the same (type, version)", r["witness"] if not oks else None, context=summ["ctx"])
             if r["req"]:
                 first_req = min(r["req"])
                 res.add("C10-R1", "ota:OTAFirmware.make_update / a node is scheduled only when the firmware exists", r["fw_known"], "mysensors/ota.py", "dominated by (type, version) in firmware", r["witness"] if not r["fw_known"] else None, context=summ["ctx"])
